@@ -132,7 +132,7 @@ func (f *Frame) runDefer(bi *BInfo, d deferRec) {
 			return
 		}
 		if cl := f.findClosure(c.Value); cl != nil {
-			f.inlineCall(b, cl.fn, cl, d.args, argVals)
+			f.staticCall(b, cl.fn, cl, d.args, argVals, nil)
 			return
 		}
 		if fn := f.findStaticFn(c.Value); fn != nil {
@@ -203,8 +203,8 @@ func (f *Frame) builtin(bi *BInfo, fv *ssa.Builtin, c *ssa.CallCommon, args []T,
 		na := g.freshConst("copy:"+arr, es)
 		k := "k!c"
 		inR := sAnd(sLe(slOff(dst.S), k), sLt(k, sAdd(slOff(dst.S), n)))
-		srcIdx := sAdd(slOff(src.S), sSub(k, slOff(dst.S)))
-		g.assert(sForall(k, sEq(sel(na, k), sIte(inR, sel(sel(a, slBase(src.S)), srcIdx), sel(sel(a, slBase(dst.S)), k)))))
+		srcRead := g.viewRead(sel(a, slBase(src.S)), es, slOff(src.S), sSub(k, slOff(dst.S)))
+		g.assert(sForall(k, sEq(sel(na, k), sIte(inR, srcRead, sel(sel(a, slBase(dst.S)), k)))))
 		g.setArr(st, arr, es, sto(a, slBase(dst.S), na))
 		return []T{intT(n)}
 	case "delete":
@@ -275,26 +275,36 @@ func (f *Frame) appendBuiltin(bi *BInfo, s, xs T) T {
 		// explicit stores for a small literal count
 		cur := sel(a, slBase(s.S))
 		for i := 0; i < int(n[0]-'0'); i++ {
-			cur = sto(cur, sAdd(start, fmt.Sprint(i)), sel(sel(a, slBase(xs.S)), sAdd(slOff(xs.S), fmt.Sprint(i))))
+			cur = sto(cur, sAdd(start, fmt.Sprint(i)), g.viewRead(sel(a, slBase(xs.S)), es, slOff(xs.S), fmt.Sprint(i)))
 		}
 		g.assert(sImp(room, sEq(inpl, cur)))
 	} else {
 		inR := sAnd(sLe(start, k), sLt(k, sAdd(start, n)))
 		g.assert(sImp(room, sForall(k, sEq(sel(inpl, k),
-			sIte(inR, sel(sel(a, slBase(xs.S)), sAdd(slOff(xs.S), sSub(k, start))), sel(sel(a, slBase(s.S)), k))))))
+			sIte(inR, g.viewRead(sel(a, slBase(xs.S)), es, slOff(xs.S), sSub(k, start)), sel(sel(a, slBase(s.S)), k))))))
+	}
+	if off := slOff(s.S); off != "0" {
+		// view-level description of the in-place result
+		sh := g.shiftFn(es)
+		oi := g.freshConst("inner", es)
+		g.assert(sEq(oi, sel(a, slBase(s.S))))
+		lhs := sel(app(sh, inpl, off), "j!v")
+		inR := sAnd(sLe(slLen(s.S), "j!v"), sLt("j!v", newLen))
+		src := g.viewRead(sel(a, slBase(xs.S)), es, slOff(xs.S), sSub("j!v", slLen(s.S)))
+		g.assert(sImp(room, fmt.Sprintf("(forall ((j!v Int)) (! (= %s (ite %s %s %s)) :pattern (%s)))", lhs, inR, src, sel(app(sh, oi, off), "j!v"), lhs)))
 	}
 	// reallocated: copy of s followed by xs
 	re := g.freshConst("realloc:"+arr, es)
-	pre := sForall(k, sImp(sAnd(sLe("0", k), sLt(k, slLen(s.S))), sEq(sel(re, k), sel(sel(a, slBase(s.S)), sAdd(slOff(s.S), k)))))
+	pre := sForall(k, sImp(sAnd(sLe("0", k), sLt(k, slLen(s.S))), sEq(sel(re, k), g.viewRead(sel(a, slBase(s.S)), es, slOff(s.S), k))))
 	var tail string
 	if isIntLit(n) && len(n) == 1 {
 		var eqs []string
 		for i := 0; i < int(n[0]-'0'); i++ {
-			eqs = append(eqs, sEq(sel(re, sAdd(slLen(s.S), fmt.Sprint(i))), sel(sel(a, slBase(xs.S)), sAdd(slOff(xs.S), fmt.Sprint(i)))))
+			eqs = append(eqs, sEq(sel(re, sAdd(slLen(s.S), fmt.Sprint(i))), g.viewRead(sel(a, slBase(xs.S)), es, slOff(xs.S), fmt.Sprint(i))))
 		}
 		tail = sAnd(eqs...)
 	} else {
-		tail = sForall(k, sImp(sAnd(sLe(slLen(s.S), k), sLt(k, newLen)), sEq(sel(re, k), sel(sel(a, slBase(xs.S)), sAdd(slOff(xs.S), sSub(k, slLen(s.S)))))))
+		tail = sForall(k, sImp(sAnd(sLe(slLen(s.S), k), sLt(k, newLen)), sEq(sel(re, k), g.viewRead(sel(a, slBase(xs.S)), es, slOff(xs.S), sSub(k, slLen(s.S))))))
 	}
 	g.assert(sImp(sNot(room), sAnd(pre, tail)))
 	g.setArr(st, arr, es, sIte(room, sto(a, slBase(s.S), inpl), sto(a, fresh, re)))
@@ -418,6 +428,23 @@ func (e *SpecEnv) modTargets(x ast.Expr, text string) []modEntry {
 					out = append(out, modEntry{arr, p.S, text})
 				}
 				return out
+			case "captured":
+				// captured(x): the variable x captured by the closure under contract
+				id, ok := x.Args[0].(*ast.Ident)
+				if !ok {
+					specFail("captured(name)")
+				}
+				p, ok := e.vars["&"+id.Name]
+				if !ok {
+					specFail("captured(%s): not a captured variable", id.Name)
+				}
+				pt := derefType(p.GT)
+				if pt == nil || isStruct(pt) {
+					specFail("captured(%s): unsupported type", id.Name)
+				}
+				l := g.cellLoc(p.S, pt)
+				g.arrReg[l.arr] = l.es
+				return []modEntry{{l.arr, l.ref, text}}
 			case "all":
 				// all(x.f): field f of every object of x's type
 				ents := e.modTargets(x.Args[0], text)
@@ -594,8 +621,11 @@ func (f *Frame) syncCall(bi *BInfo, fn *ssa.Function, args []T, argVals []ssa.Va
 			}
 			g.store(st, pl, g.freshConst("lk:"+p, g.sortOf(pl.T)))
 			v := g.load(st, pl)
-			if w := g.wfFacts(st, v); w != "true" {
+			// A-lock-fresh: what other goroutines left in the protected fields are not objects
+			// allocated by the current call
+			if w := g.wfValue(v, f.top.entry.next, 0); w != "true" {
 				g.assert(sImp(bi.R, w))
+				g.assumeNote("A-lock-fresh: values found in lock-protected fields after acquiring the lock are not objects allocated by the current call")
 			}
 		}
 		env := f.lockEnv(ld, l.ref, st, pre)
